@@ -86,19 +86,19 @@ Proof.
   - cbn. rewrite app_length. cbn. lia.
 Qed.
 
-Lemma map_tree_wf : forall leaff, lf_ok leaff -> forall fuel lk fe, rec_ok (fun h r p => map_tree fuel lk fe leaff h r p).
+Lemma map_tree_wf : forall leaff, lf_ok leaff -> forall fuel lk ln fe, rec_ok (fun h r p => map_tree fuel lk ln fe leaff h r p).
 Proof.
-  intros leaff Hl. induction fuel as [|f IH]; intros lk fe h r pre h' r' W Hr H; [discriminate|].
+  intros leaff Hl. induction fuel as [|f IH]; intros lk ln fe h r pre h' r' W Hr H; [discriminate|].
   cbn [map_tree] in H. destruct r as [v|n].
   - destruct (leaff pre h v) as [h1 v1] eqn:E. inversion H; subst.
     pose proof (lf_ok_ext _ Hl pre h v) as X. destruct (Hl pre h v) as [_ N]. rewrite E in X, N. cbn in *.
     split; auto. split; [eapply wfheap_nodes_eq; eauto|exact I].
   - destruct (get_node h n) as [nd|] eqn:En; [|discriminate].
-    destruct (map_ents (map_tree f lk fe leaff) fe pre h (nents nd)) as [[h1 es1]|] eqn:E; [|discriminate].
+    destruct (map_ents (map_tree f lk ln fe leaff) fe pre h (nents nd)) as [[h1 es1]|] eqn:E; [|discriminate].
     cbn in H. inversion H; subst; clear H.
     assert (We : forall k x, In (k, x) (nents nd) -> wfref h x) by (intros; eapply W; eauto).
-    destruct (map_ents_wf _ (IH lk fe) fe pre _ _ _ _ W We E) as [X1 [W1 R1]].
-    destruct (wfheap_alloc h1 (mkNode es1 lk) W1 R1) as [W2 R2].
+    destruct (map_ents_wf _ (IH lk ln fe) fe pre _ _ _ _ W We E) as [X1 [W1 R1]].
+    destruct (wfheap_alloc h1 (mkNode es1 (lk || (ln && nlock nd))) W1 R1) as [W2 R2].
     split; [eapply heap_ext_trans; [exact X1|apply alloc_node_ext]|]. split; auto.
 Qed.
 
@@ -139,31 +139,31 @@ Proof.
 Qed.
 
 Lemma map_tree_paths : forall leaff, lf_ok leaff ->
-  forall fuel lk h r pre h' r', wfheap h -> wfref h r ->
-  map_tree fuel lk false leaff h r pre = Some (h', r') -> tree_rel leaff pre h r h' r'.
+  forall fuel lk ln h r pre h' r', wfheap h -> wfref h r ->
+  map_tree fuel lk ln false leaff h r pre = Some (h', r') -> tree_rel leaff pre h r h' r'.
 Proof.
-  intros leaff Hl. induction fuel as [|f IH]; intros lk h r pre h' r' W Hr H; [discriminate|].
+  intros leaff Hl. induction fuel as [|f IH]; intros lk ln h r pre h' r' W Hr H; [discriminate|].
   pose proof H as H0. cbn [map_tree] in H. destruct r as [v|n].
   - destruct (leaff pre h v) as [h1 v1] eqn:E. inversion H; subst. intros [|k p]; cbn; auto.
     exists v. split; auto. exists h. split; [apply heap_ext_refl|]. rewrite app_nil_r, E. reflexivity.
   - destruct (get_node h n) as [nd|] eqn:En; [|discriminate].
-    destruct (map_ents (map_tree f lk false leaff) false pre h (nents nd)) as [[h1 es1]|] eqn:E; [|discriminate].
+    destruct (map_ents (map_tree f lk ln false leaff) false pre h (nents nd)) as [[h1 es1]|] eqn:E; [|discriminate].
     cbn in H. inversion H; subst; clear H.
     assert (We : forall k x, In (k, x) (nents nd) -> wfref h x) by (intros; eapply W; eauto).
-    destruct (map_ents_wf _ (map_tree_wf _ Hl f lk false) false pre _ _ _ _ W We E) as [X1 [W1 R1]].
-    change ({| hstor := hstor h1; hnodes := hnodes h1 ++ [mkNode es1 lk] |}) with (fst (alloc_node h1 (mkNode es1 lk))).
-    remember (fst (alloc_node h1 (mkNode es1 lk))) as h2 eqn:Eh2.
-    assert (Gn : get_node h2 (List.length (hnodes h1)) = Some (mkNode es1 lk)) by (subst h2; apply get_node_alloc_new).
+    destruct (map_ents_wf _ (map_tree_wf _ Hl f lk ln false) false pre _ _ _ _ W We E) as [X1 [W1 R1]].
+    change ({| hstor := hstor h1; hnodes := hnodes h1 ++ [mkNode es1 (lk || (ln && nlock nd))] |}) with (fst (alloc_node h1 (mkNode es1 (lk || (ln && nlock nd))))).
+    remember (fst (alloc_node h1 (mkNode es1 (lk || (ln && nlock nd))))) as h2 eqn:Eh2.
+    assert (Gn : get_node h2 (List.length (hnodes h1)) = Some (mkNode es1 (lk || (ln && nlock nd)))) by (subst h2; apply get_node_alloc_new).
     assert (X2 : heap_ext h1 h2) by (subst h2; apply alloc_node_ext).
     intros [|k p].
     + cbn. exists n. reflexivity.
     + cbn [resolve]. rewrite Gn. cbn [nents]. rewrite En.
       destruct (ents_get es1 k) as [r1|] eqn:Eg; [|exact I].
-      destruct (map_ents_get _ (map_tree_wf _ Hl f lk false) pre _ _ _ _ W We E k r1 Eg)
+      destruct (map_ents_get _ (map_tree_wf _ Hl f lk ln false) pre _ _ _ _ W We E k r1 Eg)
         as [rk [ha [hb [G1 [G2 [G3 [G4 [G5 G6]]]]]]]].
       rewrite G1.
-      destruct (map_tree_wf _ Hl f lk false _ _ _ _ _ G4 G5 G2) as [Xab [Wb Rb]].
-      pose proof (IH lk ha rk (pre ++ [k]) hb r1 G4 G5 G2 p) as T.
+      destruct (map_tree_wf _ Hl f lk ln false _ _ _ _ _ G4 G5 G2) as [Xab [Wb Rb]].
+      pose proof (IH lk ln ha rk (pre ++ [k]) hb r1 G4 G5 G2 p) as T.
       assert (Nb : nodes_ext hb h2).
       { apply heap_ext_nodes. eapply heap_ext_trans; [exact G6|exact X2]. }
       rewrite (resolve_ext p hb _ r1 Nb Wb Rb).
@@ -232,13 +232,13 @@ Proof.
 Qed.
 
 Lemma map_tree_stor : forall leaff, (forall p h v, hstor (fst (leaff p h v)) = hstor h) ->
-  forall fuel lk fe h r pre h' r', map_tree fuel lk fe leaff h r pre = Some (h', r') -> hstor h' = hstor h.
+  forall fuel lk ln fe h r pre h' r', map_tree fuel lk ln fe leaff h r pre = Some (h', r') -> hstor h' = hstor h.
 Proof.
-  intros leaff Hl. induction fuel as [|f IH]; intros lk fe h r pre h' r' H; [discriminate|].
+  intros leaff Hl. induction fuel as [|f IH]; intros lk ln fe h r pre h' r' H; [discriminate|].
   cbn [map_tree] in H. destruct r as [v|n].
   - destruct (leaff pre h v) as [h1 v1] eqn:E. inversion H; subst. specialize (Hl pre h v). now rewrite E in Hl.
   - destruct (get_node h n) as [nd|]; [|discriminate].
-    destruct (map_ents (map_tree f lk fe leaff) fe pre h (nents nd)) as [[h1 es1]|] eqn:E; [|discriminate].
+    destruct (map_ents (map_tree f lk ln fe leaff) fe pre h (nents nd)) as [[h1 es1]|] eqn:E; [|discriminate].
     cbn in H. inversion H; subst. cbn. eapply map_ents_stor; [|exact E]. intros. eapply IH; eauto.
 Qed.
 
@@ -248,9 +248,9 @@ Definition result_of (s s' : st) (x : ref) : Prop := regs s' = regs s ++ [x].
 Ltac step_map H Hr :=
   unfold step in H; cbv zeta in H; rewrite Hr in H;
   match type of H with
-  | context [match map_tree ?a ?b ?c ?d ?e ?f ?g with _ => _ end] =>
+  | context [match map_tree ?a ?b ?c ?c2 ?d ?e ?f ?g with _ => _ end] =>
       let h1 := fresh "h1" in let x := fresh "x" in let E := fresh "Emt" in
-      destruct (map_tree a b c d e f g) as [[h1 x]|] eqn:E; [|discriminate]
+      destruct (map_tree a b c c2 d e f g) as [[h1 x]|] eqn:E; [|discriminate]
   end.
 
 Theorem view_shares : forall s r nb bsel pl d s',
@@ -268,7 +268,7 @@ Proof.
   inversion H; subst s'; clear H. cbn.
   split; [eapply map_tree_stor; [|eassumption]; reflexivity|].
   exists x. split; [reflexivity|].
-  pose proof (map_tree_paths _ (lf_sub_ok nb bsel) _ _ _ _ _ _ _ W Wd Emt) as T.
+  pose proof (map_tree_paths _ (lf_sub_ok nb bsel) _ _ _ _ _ _ _ _ W Wd Emt) as T.
   intro p. specialize (T p). destruct (resolve h1 x p) as [[v'|m]|]; auto.
   destruct T as [v [T1 T2]]. exists v. split; auto.
   destruct T2 as [h0 [_ E]]. cbn in E. split; [exact E|]. subst. apply subview_view_of.
@@ -285,7 +285,7 @@ Proof.
   inversion H; subst s'; clear H. cbn.
   split; [eapply map_tree_stor; [|eassumption]; reflexivity|].
   exists x. split; [reflexivity|].
-  pose proof (map_tree_paths _ lf_same_ok _ _ _ _ _ _ _ W Wd Emt) as T.
+  pose proof (map_tree_paths _ lf_same_ok _ _ _ _ _ _ _ _ W Wd Emt) as T.
   intros p v' Hp. specialize (T p). rewrite Hp in T. destruct T as [v [T1 [h0 [_ E]]]]. cbn in E. now subst.
 Qed.
 
@@ -302,7 +302,7 @@ Theorem clone_fresh : forall s r d s',
 Proof.
   intros s r d s' W Hr Wd H. step_map H Hr.
   inversion H; subst s'; clear H. exists x. split; [reflexivity|]. cbn.
-  pose proof (map_tree_paths _ lf_copy_ok _ _ _ _ _ _ _ W Wd Emt) as T.
+  pose proof (map_tree_paths _ lf_copy_ok _ _ _ _ _ _ _ _ W Wd Emt) as T.
   intros p v' Hp. specialize (T p). rewrite Hp in T. destruct T as [v [T1 T2]].
   split; [eapply leaf_rel_copy; eauto|eauto].
 Qed.
@@ -313,7 +313,7 @@ Theorem gather_fresh : forall s r nb bsel d s',
 Proof.
   intros s r nb bsel d s' W Hr Wd H. step_map H Hr.
   inversion H; subst s'; clear H. exists x. split; [reflexivity|]. cbn.
-  pose proof (map_tree_paths _ (lf_gather_ok nb bsel) _ _ _ _ _ _ _ W Wd Emt) as T.
+  pose proof (map_tree_paths _ (lf_gather_ok nb bsel) _ _ _ _ _ _ _ _ W Wd Emt) as T.
   intros p v' Hp. specialize (T p). rewrite Hp in T. destruct T as [v [T1 T2]].
   split; [eapply leaf_rel_gather; eauto|eauto].
 Qed.
@@ -324,7 +324,7 @@ Theorem unary_fresh : forall s r f pl d s',
 Proof.
   intros s r f pl d s' W Hr Wd H. step_map H Hr.
   inversion H; subst s'; clear H. exists x. split; [reflexivity|]. cbn.
-  pose proof (map_tree_paths _ (lf_un_ok f) _ _ _ _ _ _ _ W Wd Emt) as T.
+  pose proof (map_tree_paths _ (lf_un_ok f) _ _ _ _ _ _ _ _ W Wd Emt) as T.
   intros p v' Hp. specialize (T p). rewrite Hp in T. destruct T as [v [T1 T2]].
   split; [eapply leaf_rel_un; eauto|eauto].
 Qed.
@@ -339,7 +339,7 @@ Theorem contiguous_rule : forall s r d s',
 Proof.
   intros s r d s' W Hr Wd H. step_map H Hr.
   inversion H; subst s'; clear H. exists x. split; [reflexivity|]. cbn.
-  pose proof (map_tree_paths _ lf_contig_ok _ _ _ _ _ _ _ W Wd Emt) as T.
+  pose proof (map_tree_paths _ lf_contig_ok _ _ _ _ _ _ _ _ W Wd Emt) as T.
   intros p v' Hp. specialize (T p). rewrite Hp in T. destruct T as [v [T1 T2]].
   exists v. split; auto. eapply leaf_rel_contig; eauto.
 Qed.
